@@ -21,7 +21,7 @@ NREG = {'fr': 5, 'fq': 5, 'fq2': 4}
 
 
 def cases(tier, seed):
-    n = 400 if tier == 'quick' else 250000
+    n = 3000 if tier == 'quick' else 250000
     return [('hist', 40 + (i % 5) * 20) for i in range(n)]
 
 
